@@ -51,8 +51,22 @@ func genC16(r *Rng, tier string) *World {
 	mk := func(prefix string, n int) *Node {
 		s := &Node{Kind: "struct"}
 		for i := 0; i < n; i++ {
-			k := Pick(r, []string{"string", "int", "bool"})
+			k := Pick(r, []string{"string", "int", "bool", "string", "int", "bool", "ptr-struct", "ptr-string", "struct", "slice"})
 			f := &Node{Kind: k, Req: r.P(0.5)}
+			inner := func() *Node {
+				return &Node{Kind: "struct", Fields: []*Field{{Key: "x", N: &Node{Kind: "string", Req: r.P(0.5)}}, {Key: "y", N: &Node{Kind: "int", Def: &Val{K: "i", I: 3}}}}}
+			}
+			switch k {
+			case "ptr-struct":
+				// a field's own modifiers (NotNil, Required) travel with the field into every derived schema
+				f = &Node{Kind: "ptr", Req: r.P(0.6), Elem: inner()}
+			case "ptr-string":
+				f = &Node{Kind: "ptr", Req: r.P(0.6), Elem: &Node{Kind: "string", Req: r.P(0.5)}}
+			case "struct":
+				f = inner()
+			case "slice":
+				f = &Node{Kind: "slice", Req: r.P(0.6), Elem: &Node{Kind: "string"}, Tests: []TestSpec{{T: "min", N: 1}}}
+			}
 			if r.P(0.5) {
 				switch k {
 				case "string":
@@ -77,7 +91,9 @@ func genC16(r *Rng, tier string) *World {
 		if r.P(0.4) {
 			// override a base field with another schema of the same kind
 			bf := Pick(r, base.Fields)
-			e.Fields = append(e.Fields, &Field{Key: bf.Key, N: &Node{Kind: bf.N.Kind, Req: !bf.N.Req}})
+			ov := bf.N.Clone()
+			ov.Req, ov.Tests = !bf.N.Req, nil
+			e.Fields = append(e.Fields, &Field{Key: bf.Key, N: ov})
 		}
 		w.Schemas = append(w.Schemas, e)
 	}
@@ -212,6 +228,16 @@ func runC16(x *X) *Violation {
 			probes[0][k] = 7
 		case "bool":
 			probes[0][k] = true
+		case "ptr":
+			if universe[k].Elem.Kind == "struct" {
+				probes[0][k] = map[string]any{"x": "px"}
+			} else {
+				probes[0][k] = "ps"
+			}
+		case "struct":
+			probes[0][k] = map[string]any{"y": 4}
+		case "slice":
+			probes[0][k] = []any{"e1", "e2"}
 		}
 	}
 	if len(order) > 0 {
